@@ -25,7 +25,9 @@ MANIFEST = {
             "cat/stack along a non-batch axis. Whole forward passes: every operation of /repo/direct whose meaning depends on which axis "
             "is the batch (reductions with their axes, cat/stack/split/select/unsqueeze/softmax/flip/... with their axis, permute and "
             "transpose literals, the form of every reshape/view/flatten, subscripts at the batch position, functionals with batch "
-            "statistics, whole-tensor queries, arithmetic on the batch size) is translated, function by function, into a primitive "
+            "statistics, whole-tensor queries, arithmetic on the batch size, and shape- or mode-dependent control flow: `if` on "
+            "self.training / on a tensor extent, partial `range(n // K)` loops, with what the guarded region does) is translated, "
+            "function by function, into a primitive "
             "table; a runtime trace of every zoo model gives the functions each model executes; a decidable judgement (Prim.ok / "
             "FuncRow.ok) is decided on the generated tables, and `model_separable` proves that ANY data-flow graph over the primitives "
             "of a model whose row passes is separable under every sound interpretation; `stdInterp_sound` proves the standard "
@@ -33,7 +35,10 @@ MANIFEST = {
             "transposes, flattens; rejected call sites denote the operation along the batch axis). The batch*coil fold of MultiCoil: "
             "un-fold(fold) = id, fold/map/un-fold = per-sample per-coil map (so batch independent), the index arithmetic (row r belongs "
             "to sample r/c; a trailing reduction of a folded row stays inside its sample), and the coil-major un-fold as a mixing "
-            "counter-model. State: a call that performs no write to attributes, buffers, class attributes, module-level names, memo "
+            "counter-model. Chunked coil sums: accumulating over floor(n/k) chunks sums only the first (n/k)*k coils (complete iff "
+            "k | n; order-dependent witness), over ceil(n/k) chunks it is the full sum for every n and hence permutation invariant; "
+            "`control_flow_keeps_reduced_set` decides on the generated table that no mode- or size-dependent branch / partial loop "
+            "reduces, slices the batch or coil axis, or accumulates. State: a call that performs no write to attributes, buffers, class attributes, module-level names, memo "
             "tables or process-wide switches answers any history (also interleaved with a second instance) as a function of its input; "
             "the effect table (10 kinds of writes/reads, incl. mutable defaults, in-place updates of parameters, grad-mode reads) is "
             "decided empty up to a listed allowance. Coil order: every expression built from per-coil maps, element-wise combinations "
@@ -75,6 +80,10 @@ ASSUMPTIONS = [
     "history checks (train()->eval() toggle, autograd on, second instance) are bit-exact; non-contiguous inputs and batch order use the "
     "entry tolerance",
     "negative axes address trailing axes of operands of rank > |axis| (e.g. `-1` on a rank-1 tensor would be the batch axis)",
+    "size ladders (coils 1..8, 9, 12, 15, 16, 17, 20, 33; batch 1, 2, 3, 8, 9, 16, 17, 33) run at tiny spatial sizes; the batch ladder "
+    "uses tolerance 1e-4 (measured rounding up to 1.2e-5 for batches of 17..33 through 2x2 instance-norm bottlenecks), the coil "
+    "ladder 1e-4; quick tier: all rungs for the DC / likelihood blocks, the rungs 9, 12, 17 (+1 random) / 9, 17 (+1 random) for "
+    "the cheapest model of every family; train mode is included only for modules without dropout and batch norm",
     "evaluation mode only",
 ]
 RULE = ("integer batches (b 1..4, c, h, w small, groups dividing) for the normalisation functions; Gaussian-integer coil stacks "
@@ -82,7 +91,10 @@ RULE = ("integer batches (b 1..4, c, h, w small, groups dividing) for the normal
         "judgement vs torch on 4-sample integer batches; random shapes/permutations for permute, along-axis actions, MultiCoil "
         "fold/loop with an integer affine model; the whole zoo (+ MultiCoil fold/loop entries) in eval mode with companions of "
         "magnitude 1, 1e4, 1e-4, 0 and copies of the sample at every batch position, repeated evaluation, train->eval toggle, "
-        "autograd on, non-contiguous input, a second instance, batch order (thorough), all / two coil permutations. non-trivial = "
+        "autograd on, non-contiguous input, a second instance, batch order (thorough), all / two coil permutations; coil-count and "
+        "batch-size ladders across the usual chunk thresholds (8, 16, 32) for the DC / likelihood blocks (MRILogLikelihood, "
+        "reduce_operator, the DC step, StandardizationLayer, ConjGrad, EndToEndVarNetBlock; eval and train mode) and the cheapest "
+        "model of every family. non-trivial = "
         "batch >= 2 or coils >= 2; distinct = distinct protocol line / (entry, size, batch, position, scale)")
 
 EXTRA_LEAN_MODULES = ["DirectVerif.Lemmas.C18Prims", "DirectVerif.Lemmas.C18Coil"]
@@ -97,6 +109,7 @@ _UNUSABLE = {"normunet-zero-group"}
 # permuting the coils changes the order of every float32 coil summation: rounding differences up to 1.3e-5 (relative) were
 # measured through the deeper networks; a coil-order dependence changes the output by O(1)
 _PERM_TOL = 1e-4
+_LADDER_TOL = 1e-4
 
 _ZOO = None
 _MODELS: dict = {}
@@ -444,6 +457,19 @@ def _phase3_correspondence(ctx: Ctx):
             return "ok " + ints(flat(out))
         yield {"line": line("mergemap", [b, c, h * w * ch], [a, k], flat(x)), "nontrivial": b >= 2 and c >= 2, "impl": _guard(impl),
                "bucket": "multicoil/" + ("fold" if fold else "loop") + ("/b1" if b == 1 else "/c1" if c == 1 else "/batched")}
+    # ---- a sum accumulated over `n // k` chunks, over all `torch.split` chunks, and at once
+    for _ in range(ctx.budget(25, 200)):
+        n, k = rng.randint(1, 13), rng.randint(1, 5)
+        x = _int_tensor(rng, [n, 2], -9, 9)
+
+        def impl(x=x, n=n, k=k):
+            lo = torch.zeros(2, dtype=x.dtype)
+            for i in range(n // k):
+                lo = lo + x[i * k:(i + 1) * k].sum(0)
+            hi = sum(c.sum(0) for c in torch.split(x, k, 0))
+            return "ok " + " | ".join(ints(flat(t)) for t in (lo, hi, x.sum(0)))
+        yield {"line": line("chunksum", [k], flat(x)), "nontrivial": n > k, "impl": _guard(impl),
+               "bucket": "chunksum/" + ("divides" if n % k == 0 else "remainder")}
     for _ in range(ctx.budget(20, 150)):
         b, c = rng.randint(1, 4), rng.randint(1, 4)
         y = _int_tensor(rng, [b * c], -20, 20)
@@ -641,6 +667,182 @@ def _history_checks(ctx, e, m, x, single, h, w, seed, coils, deep):
                             {"op": "history", "kind": kind, "observed_rel_diff": _rel(single, out), **rep})
 
 
+# ------------------------------------------------------------------------------------------------------------------
+# size ladders: thresholds on the coil count or the batch size (chunked "memory saving" paths, `n // K` loops) only show
+# beyond the threshold and off its multiples
+COIL_LADDER = [1, 2, 3, 4, 5, 6, 7, 8, 9, 12, 15, 16, 17, 20, 33]
+BATCH_LADDER = [1, 2, 3, 8, 9, 16, 17, 33]
+_LADDER_SIZES = [(4, 5), (6, 5), (8, 9), (9, 12), (17, 20), (18, 20)]
+
+
+class _Block:
+    """a data-consistency / likelihood block called directly (tiny spatial size): `call(module, inputs)`; `out` says
+    whether the result carries a coil axis (equivariant) or not (invariant)"""
+
+    def __init__(self, name, build, call, coil_invariant=True, tol=1e-5):
+        self.name, self.build, self.call, self.coil_invariant, self.tol = name, build, call, coil_invariant, tol
+        self.kind, self.family, self.tags = "block", "block", ()
+        self._m = None
+
+    def admissible(self, h, w, z=None):
+        return True
+
+    def module(self):
+        if self._m is None:
+            torch.manual_seed(77)
+            self._m = self.build().eval()
+        return self._m
+
+
+def _blocks():
+    from direct.data import transforms as T
+    from direct.nn.conjgradnet.conjgrad import ConjGrad
+    from direct.nn.conv.conv import Conv2d
+    from direct.nn.multidomainnet.multidomainnet import StandardizationLayer
+    from direct.nn.rim.rim import MRILogLikelihood
+    from direct.nn.varnet.varnet import EndToEndVarNetBlock
+
+    fwd, bwd = Z._ops()
+
+    def dc(_m, d):
+        S, K, M = d["sensitivity_map"], d["masked_kspace"], d["sampling_mask"]
+        r = torch.where(M == 0, torch.zeros(1), fwd(T.expand_operator(d["image"], S, 1), dim=(2, 3)) - K)
+        return T.reduce_operator(bwd(r, dim=(2, 3)), S, 1)
+
+    ident = torch.nn.Identity
+    return [
+        _Block("block/MRILogLikelihood", lambda: MRILogLikelihood(fwd, bwd),
+               lambda m, d: m(d["image"].permute(0, 3, 1, 2), d["masked_kspace"], d["sensitivity_map"], d["sampling_mask"])),
+        _Block("block/reduce_operator", ident, lambda m, d: T.reduce_operator(bwd(d["masked_kspace"], dim=(2, 3)), d["sensitivity_map"], 1)),
+        _Block("block/data-consistency", ident, dc),
+        _Block("block/StandardizationLayer", lambda: StandardizationLayer(1, -1),
+               lambda m, d: m(bwd(d["masked_kspace"], dim=(2, 3)), d["sensitivity_map"]), coil_invariant=False),
+        _Block("block/ConjGrad/tol0", lambda: ConjGrad(fwd, bwd, num_iters=3, tol=0.0),
+               lambda m, d: m(d["masked_kspace"], d["sensitivity_map"], d["sampling_mask"], d["image"], torch.tensor([0.3])), tol=1e-4),
+        _Block("block/EndToEndVarNetBlock", lambda: EndToEndVarNetBlock(fwd, bwd, Conv2d(2, 2, 4, n_convs=2)),
+               lambda m, d: m(d["masked_kspace"] * 0.5, d["masked_kspace"], d["sampling_mask"], d["sensitivity_map"]), coil_invariant=False),
+    ]
+
+
+_BLOCKS = None
+
+
+def blocks():
+    global _BLOCKS
+    if _BLOCKS is None:
+        _BLOCKS = _blocks()
+    return _BLOCKS
+
+
+def _ladder_inputs(e, n, h, w, seed, coils):
+    """one sample per seed, concatenated: a sample is the same tensor alone and inside any batch"""
+    items = []
+    for i in range(n):
+        if e.kind == "block":
+            d = Z.recon_inputs(1, coils, h, w, seed=seed + i)
+            d["image"] = torch.randn((1, h, w, 2), generator=torch.Generator().manual_seed(seed + i + 5000))
+        else:
+            d = _inputs(e, 1, h, w, seed + i, coils=coils)
+        items.append(d)
+    return items
+
+
+def _ladder_run(e, m, inp):
+    if e.kind == "block":
+        with torch.no_grad():
+            return e.call(m, inp)
+    return _run(e, m, inp)
+
+
+def _train_mode_irrelevant(m) -> bool:
+    """no dropout with p > 0 and no batch norm: the module computes the same function in train() and eval()"""
+    from torch import nn
+    for sub in m.modules():
+        if isinstance(sub, nn.modules.batchnorm._BatchNorm):
+            return False
+        if isinstance(sub, (nn.Dropout, nn.Dropout2d, nn.Dropout3d, nn.AlphaDropout)) and sub.p > 0:
+            return False
+    return True
+
+
+def _ladder_case(e, m, kind, count, h, w, seed, train, pos=None):
+    """-> (relative difference, tolerance) of one ladder case; raises what the implementation raises"""
+    if train:
+        m.train()
+    try:
+        if kind == "coil":
+            x = _cat(e, _ladder_inputs(e, 1, h, w, seed, count))
+            ref = _ladder_run(e, m, x)
+            worst = 0.0
+            perms = [list(range(count))[::-1], [(i + 3) % count for i in range(count)]] if count > 1 else [[0]]
+            for perm in perms:
+                out = _ladder_run(e, m, _permute_coils(e, x, perm))
+                worst = max(worst, _rel(ref if e.coil_invariant else ref[:, perm], out))
+            return worst, max(e.tol, _PERM_TOL)
+        items = _ladder_inputs(e, count, h, w, seed, 3)
+        pos = count - 1 if pos is None else pos
+        single = _ladder_run(e, m, items[pos])
+        out = _ladder_run(e, m, _cat(e, items))[pos:pos + 1]
+        # tiny spatial sizes and large batches: measured rounding differences up to 1.2e-5 (instance norm over 2x2 bottlenecks,
+        # FFT kernels chosen by batch size); a threshold effect drops or mixes whole samples and is of order 1e-2 .. 1
+        return _rel(single, out), max(e.tol, _LADDER_TOL)
+    finally:
+        if train:
+            m.eval()
+
+
+def _ladders(ctx, deep):
+    """coil-count ladder for the coil-order check and batch-size ladder for the batch-independence check: the DC / likelihood
+    blocks (every rung, eval and train mode) and the cheapest model of every family (quick: the rungs next to the usual
+    thresholds 8, 16, 32; thorough: every rung; train mode where it is irrelevant)"""
+    rng = ctx.rng
+    fam = {}
+    for e in zoo():
+        if e.kind in ("recon", "den2d", "gru", "mc") and e.family not in fam and not e.finding:
+            fam[e.family] = e
+    targets = [(b, b.module()) for b in blocks()] + [(e, model_of(e)) for e in fam.values()]
+    for e, m in targets:
+        size = next(((h, w) for (h, w) in _LADDER_SIZES if e.admissible(h, w, 3)), None)
+        if size is None:
+            continue
+        h, w = size
+        is_block = e.kind == "block"
+        irrelevant = _train_mode_irrelevant(m)
+        plans = []
+        if e.kind in ("block", "recon", "mc"):
+            rungs = COIL_LADDER if (deep or is_block) else [9, 12, 17] + rng.sample([1, 5, 8, 15, 16, 20, 33], 1)
+            plans += [("coil", c) for c in rungs]
+        rungs = BATCH_LADDER if (deep or is_block) else [9, 17] + rng.sample([8, 16, 33], 1)
+        plans += [("batch", n) for n in rungs]
+        for kind, count in plans:
+            modes = [False] + ([True] if irrelevant and (deep or is_block or count in (9, 12)) else [])
+            for train in modes:
+                seed = rng.randrange(2 ** 20)
+                pos = rng.randrange(count) if kind == "batch" else None
+                ctx.count((e.name, "ladder", kind, count, train), count >= 2,
+                          sample={"entry": e.name, "ladder": kind, "count": count, "size": [h, w], "train_mode": train},
+                          bucket=f"oracle/ladder/{kind}/{count}" + ("/train" if train else ""))
+                rep = {"op": "ladder", "entry": e.name, "ladder": kind, "count": count, "h": h, "w": w, "seed": seed,
+                       "train_mode": train, "position": pos}
+                try:
+                    r, tol = _ladder_case(e, m, kind, count, h, w, seed, train, pos)
+                except Exception as ex:  # noqa: BLE001
+                    yield Violation(f"{e.name}:raises-{err_name(ex)}",
+                                    f"{e.name} fails with {count} {'coils' if kind == 'coil' else 'samples'}: {str(ex)[:150]}", rep)
+                    continue
+                if not (r <= tol):
+                    rep["observed_rel_diff"] = r
+                    mode = " (train mode, which is irrelevant for this module)" if train else ""
+                    if kind == "coil":
+                        yield Violation(f"{e.name}:coil-order",
+                                        f"{e.name}: with {count} coils, permuting the coils of k-space and maps together changes the "
+                                        f"output by {r:.2e}{mode}", rep)
+                    else:
+                        yield Violation(f"{e.name}:batch-dependence",
+                                        f"{e.name}: output of a sample differs by {r:.2e} (relative) between a batch of {count} "
+                                        f"(position {pos}) and alone{mode}; tolerance {tol:g}", rep)
+
+
 def _stateful_modules(ctx, e):
     """`.eval()` must switch every stochastic / statistics-updating module off; dropout entries must be live in train mode
     (so that the check is not vacuous)"""
@@ -681,6 +883,7 @@ def oracle(ctx: Ctx, deep: bool = False):
             yield v
         if search and found >= 6:
             return                  # the failing-input search has its inputs
+    yield from _ladders(ctx, deep)
     # the normalisation functions themselves on float batches: statistics and normalised sample identical alone / batched,
     # and un-normalisation inverts
     from direct.nn.recurrent.recurrent import NormConv2dGRU
@@ -708,6 +911,19 @@ def oracle(ctx: Ctx, deep: bool = False):
 
 def replay(rep: dict) -> bool:
     op = rep.get("op")
+    if op == "ladder":
+        e = next((b for b in blocks() if b.name == rep["entry"]), None)
+        m = e.module() if e is not None else None
+        if e is None:
+            e = next((x for x in Z.zoo(thorough=True) + extra_entries() if x.name == rep["entry"]), None)
+            if e is None:
+                return True
+            m = model_of(e)
+        try:
+            r, tol = _ladder_case(e, m, rep["ladder"], rep["count"], rep["h"], rep["w"], rep["seed"], rep.get("train_mode", False), rep.get("position"))
+        except Exception:  # noqa: BLE001
+            return True
+        return not (r <= tol)
     if op not in ("batch", "single", "repeat", "perm", "history"):
         return True
     e = next((x for x in Z.zoo(thorough=True) + extra_entries() if x.name == rep["entry"]), None)
